@@ -1305,7 +1305,7 @@ func (fr *Frame) checkFrame(st *State, ret *ssa.Return) {
 		if k == "g|emits" || k == "g|last_level" || k == "g|last_msg" || k == "g|last_args" {
 			continue // what a function logs is pinned down by explicit clauses (C10), not by frames: adding a log line is not a frame violation
 		}
-		if strings.HasPrefix(k, "d|") || strings.HasPrefix(k, "it|") || k == "g|$heap" || k == "g|$panicking" || k == "g|$held" || k == "g|$closed" {
+		if strings.HasPrefix(k, "d|") || strings.HasPrefix(k, "it|") || k == "g|$heap" || k == "g|$panicking" || k == "g|$held" || k == "g|$closed" || k == "g|$recvd" {
 			continue
 		}
 		if strings.HasPrefix(k, "g|") && r.eng.cs.LocalGhost[k[2:]] {
